@@ -822,6 +822,48 @@ def rule_clamp(ctx, F):
                           'in-row position %s (before the row / before the buffer)' % (_fmtw(w), sym.evaluate(r, w)), F.outer_line, facts={'witness': w})
 
 
+def rule_store_in_row(ctx, F):
+    """The DP store `arr[row*length + j + 1 - offset]` of a rolling-buffer kernel stays inside its row for every column of the band:
+    0 <= j + 1 - offset < length for j_lo(i) <= j < j_hi(i) (memory safety of the two-row buffer; the terms are the code's own)."""
+    if F.length_t is None or getattr(F, 'off_full', None) is None:
+        ctx.undecided('R-CLAMP', '%s DP store inside its row' % F.name, 'buffer facts unavailable')
+        return
+    lo, prev = _rename_prev(F.lo)
+    lo = sym.subst(lo, {'SC': C(0)}) if prev else lo      # pruning only raises the first column
+    hi = F.hi
+    from itertools import product
+    for (lab, lo_t, d), (_, hi_t, _), (_, off_t, _), (_, len_t, _) in zip(_wcases(F, lo), _wcases(F, hi), _wcases(F, F.off_full), _wcases(F, F.length_t)):
+        dom = BASE_DOM + d + [sub(sub(hi_t, C(1)), lo_t)]
+        below = sub(sub(off_t, lo_t), C(2))               # lo + 1 - off <= -1
+        above = sub(sub(hi_t, off_t), len_t)              # (hi - 1) + 1 - off >= length
+        ats = sorted(set().union(*[sym.atoms(t) for t in (lo_t, hi_t, off_t, len_t)]) | {'L1', 'L2', 'i'})
+        if not set(ats) <= set(BOX):
+            ctx.undecided('R-CLAMP', '%s DP store inside its row [%s]' % (F.name, lab), 'terms over %s' % ats)
+            continue
+        w = None
+        for vals in product(*[BOX[a] for a in ats]):
+            val = dict(zip(ats, vals))
+            val.setdefault('W', 0)
+            if all(sym.evaluate(x, val) >= 0 for x in dom):
+                if sym.evaluate(below, val) >= 0:
+                    w = (val, 'before', sym.evaluate(lo_t, val) + 1 - sym.evaluate(off_t, val))
+                    break
+                if sym.evaluate(above, val) >= 0:
+                    w = (val, 'past', sym.evaluate(hi_t, val) - sym.evaluate(off_t, val))
+                    break
+        inst = '%s DP store inside its row [%s]' % (F.name, lab)
+        if w is None:
+            ctx.held('R-CLAMP', inst)
+        else:
+            val, side, pos = w
+            ctx.violation('R-CLAMP', F.file, F.name, 'DP store position',
+                          'the cell of column j is stored at in-row position j + 1 - %s of a row of %s entries: at %s the band [%s, %s) reaches position %s, %s the row '
+                          '(the two rows are the whole allocation, so this is a write %s)'
+                          % (sym.show(off_t)[:120], sym.show(len_t)[:80], _fmtw(val), sym.evaluate(lo_t, val), sym.evaluate(hi_t, val), pos, side,
+                             'into the other row or outside the buffer'), F.store[4].line, facts={'witness': val})
+            break
+
+
 def _fulldom(F):
     return BASE_DOM + PSI_DOM + ([V('SC')] if True else []) + ([sub(V('W'), C(1))] if F.lang != 'c' else [V('W')])
 
@@ -963,6 +1005,7 @@ def rule_dom_c(ctx, F):
             # only_ub short-cut: must be the Euclidean distance itself (result domain)
             cls = _conv_class(val, set()) or ('squared' if any(nm == 'pow' for nm, c in _calls(val)) else 'identity')
             sq = any(nm == 'pow' for nm, c in _calls(val))
+            F.only_ub_domain = 'internal' if sq else ('result' if not F.name.endswith('_euclidean') else None)
             ctx.check(not sq, 'R-DOM', F.file, F.name, 'only_ub return',
                       'asking for only the upper bound returns pow(ub_euclidean(...), 2): a value of the internal (squared) domain where the '
                       'Euclidean distance itself is the contract', ev[3].line)
@@ -1049,6 +1092,7 @@ def rule_dom_py(ctx, m, F):
         is_ub = any((dotted(c[1]) or '').split('.')[-1] in ('ub_euclidean',) for c in walk_expr(val) if c[0] == 'call')
         if is_ub and not reads:
             pos = _triple_pos(val[1]) if val[0] == 'call' else None
+            F.only_ub_domain = 'internal' if pos == 2 else 'result'
             ctx.check(pos != 2, 'R-DOM', F.file, F.name, 'only_ub return',
                       'asking for only the upper bound returns inner_val(ub_euclidean(...)): a value of the internal (squared) domain where the '
                       'Euclidean distance itself is the contract', ev[3].line)
